@@ -384,6 +384,38 @@ def rule_critical(ctx: Ctx) -> None:
         break
 
 
+def rule_identity(ctx: Ctx) -> None:
+    """Which ground truths are already paired is decided by list membership, i.e. DynamicObject.__eq__: two objects are the same iff time stamp, label,
+    position and orientation are EXACTLY equal.  A tolerance (allclose / isclose / rounding) makes identity depend on coordinate magnitude, i.e. on the frame."""
+    fi = ctx.func("common.object.DynamicObject.__eq__")
+    other = fi.params()[0].arg if fi.params() else "other"
+    FIELDS = ("unix_time", "semantic_label", "state.position", "state.orientation")
+    want_atoms = {f"same:{other}.{f}==self.{f}" for f in FIELDS} | {f"same:self.{f}=={other}.{f}" for f in FIELDS}
+    rows = 0
+    for p in enum_paths(ctx, fi, bool_returns=True):
+        f = {S(k): v for k, v in p.facts.items()}
+        if f.get(f"none:{other}"):
+            ctx.check(p.retval is not None and S(p.retval) == "False", "C03-identity", "DynamicObject.__eq__", "none", "an object equals None", fi=fi)
+            continue
+        odd = [k for k in f if k != f"none:{other}" and k not in want_atoms]
+        if odd:
+            tol = [k for k in odd if any(w in k for w in ("allclose", "isclose", "round(", "abs(", "approx", "norm(", "distance"))]
+            ctx.check(False, "C03-identity", "DynamicObject.__eq__", "inexact" if tol else "other-test",
+                      f"object identity is decided by `{(tol or odd)[0][:120]}`" + ("; a tolerance makes two distinct nearby ground truths equal (the relative part scales with the coordinates, so the answer depends on the frame) "
+                      "and an unmatched ground truth next to a matched one is then never reported as FN" if tol else "; expected exact equality of time stamp, label, position and orientation"), fi=fi,
+                      expected="==", found=(tol or odd)[0][:160])
+            continue
+        ctx.require(isinstance(p.retval, ast.Constant), "DynamicObject.__eq__: undecided return")
+        got = bool(p.retval.value)
+        seen = {fld: next((v for k, v in f.items() if k in (f"same:{other}.{fld}==self.{fld}", f"same:self.{fld}=={other}.{fld}")), None) for fld in FIELDS}
+        if got:
+            ctx.check(all(v is True for v in seen.values()), "C03-identity", "DynamicObject.__eq__", "equal-needs-all", f"objects are equal although only {[k for k, v in seen.items() if v]} were compared equal; all of {list(FIELDS)} must be", fi=fi)
+        else:
+            ctx.check(any(v is False for v in seen.values()), "C03-identity", "DynamicObject.__eq__", f"unequal:{sum(1 for v in seen.values() if v)}", "objects differ although every compared field is equal", fi=fi)
+        rows += 1
+    ctx.require(rows >= 5, f"DynamicObject.__eq__: only {rows} rows")
+
+
 def run(ctx: Ctx) -> None:
     from rules import generic as _G
     ctx.run(_G.rule_arity, ("perception_eval.evaluation.result", "perception_eval.evaluation.matching", "perception_eval.manager"), "R-ARITY", 60)
@@ -394,6 +426,7 @@ def run(ctx: Ctx) -> None:
     ctx.run(rule_filter_both)
     ctx.run(rule_siblings)
     ctx.run(rule_critical)
+    ctx.run(rule_identity)
     from rules import C10
     ctx.run(C10.rule_predicate)  # 'nothing outside the critical region is counted' rests on the filter predicate's decision table
     scope = ("perception_eval.evaluation.result", "perception_eval.evaluation.matching", "perception_eval.manager") if ctx.tier == "quick" else G.full_scope(ctx)
